@@ -196,6 +196,7 @@ func (in *Interp) reset(prefix []int) {
 	in.splitOf = map[string][]Term{}
 	in.ptrIDs = map[*Value]int{}
 	in.unknownBranch = 0
+	in.guardsOff = false
 }
 
 func runHarness(L *Loaded, spec *HarnessSpec, opts *Options, nworkers int) *HarnessResult {
